@@ -454,6 +454,9 @@ def spelling_shard(shard):
         for f in (lambda s: "    " + s, lambda s: "\t" + s, lambda s: s + "   ", lambda s: s + " # trailing comment", lambda s: s + "\t#c",
                   lambda s: s + '  # 3.5" floppy', lambda s: s + " # it's", lambda s: s + ' # a "quoted" word', lambda s: s + " # x: .data # more", lambda s: s + " #",
                   lambda s: s + " # add x1, x2, x3", lambda s: s + " # ,;:()[]",
+                  # characters at which str.splitlines() - but no editor - ends a line (genuine defect D9, repaired)
+                  lambda s: s + " # form\x0cfeed", lambda s: s + " # vertical\x0btab x", lambda s: s + " # a\x1cb\x1dc\x1ed", lambda s: s + " # next\x85line",
+                  lambda s: s + " # line\u2028separator", lambda s: s + " # paragraph\u2029separator add x1",
                   lambda s: s.replace(", ", ","), lambda s: s.replace(", ", " , "), lambda s: s.replace(", ", ",\t"), lambda s: s.replace("(", " ( ").replace(")", " ) "),
                   lambda s: s.replace(": ", ":"), lambda s: s.replace(": ", " :  "), lambda s: s.replace(" ", "  ")):
             v = list(prog)
